@@ -28,6 +28,10 @@ type Obligation struct {
 	Msg        string `json:"msg"`
 	Nontrivial bool   `json:"nontrivial"` // needed a path, dominance, value-flow or table argument
 	Known      bool   `json:"known_finding,omitempty"`
+	// AltKey: the key the same construct has when attributed to the only function that calls its
+	// (helper) function; a known finding recorded under that key still identifies the construct
+	// after it was moved into such a helper.
+	AltKey string `json:"alt_key,omitempty"`
 }
 
 type floorReq struct {
@@ -38,6 +42,7 @@ type floorReq struct {
 
 // Ctx is the per-run context of one property.
 type Ctx struct {
+	nextAlt       string // AltKey for the next obligation recorded
 	P             *Prog
 	Prop          string
 	Tier          string
@@ -61,7 +66,8 @@ type Ctx struct {
 type anchorMissing struct{ what string }
 
 func (c *Ctx) add(status, rule, key string, pos token.Pos, nontrivial bool, format string, args ...any) *Obligation {
-	o := &Obligation{Rule: rule, Key: key, Pos: c.P.Pos(pos), Status: status, Msg: fmt.Sprintf(format, args...), Nontrivial: nontrivial}
+	o := &Obligation{Rule: rule, Key: key, Pos: c.P.Pos(pos), Status: status, Msg: fmt.Sprintf(format, args...), Nontrivial: nontrivial, AltKey: c.nextAlt}
+	c.nextAlt = ""
 	k := rule + "|" + key
 	if c.seen == nil {
 		c.seen = map[string]bool{}
